@@ -153,8 +153,17 @@ def _c01_sutra(mon, s):
         return
     got = float(ec.LCOH.value)
     mon.note('c01-cell:sutra')
-    mon.check('levelized:LCOH', close(got, want, 1e-9), mechanism='C01/SUTRA-LCOH-adds-KUSD-O&M-to-MUSD-capital',
-              cell='sutra', got=got, want=want, coam_unit=ec.Coam.CurrentUnits)
+    mech = 'C01/levelized-mismatch/LCOH/sutra'
+    if not close(got, want, 1e-9) and scale != 1.0:
+        # the known defect has a recognisable signature: the same formula with the KUSD/yr O&M series added unconverted to the
+        # MUSD capital cost; anything else is a different violation
+        try:
+            f13 = R.levelize(2, CC, 0.0, [x / scale for x in CO_t], E, p)
+        except (ZeroDivisionError, OverflowError):
+            f13 = None
+        if f13 is not None and close(got, f13, 1e-9):
+            mech = 'C01/SUTRA-LCOH-adds-KUSD-O&M-to-MUSD-capital'
+    mon.check('levelized:LCOH', close(got, want, 1e-9), mechanism=mech, cell='sutra', got=got, want=want, coam_unit=ec.Coam.CurrentUnits)
 
 
 # -------------------------------------------------------------------------------------------------------------- C03
